@@ -64,6 +64,13 @@ _CONTAINER_METHODS_OF = {
             'capitalize', 'casefold', 'zfill'},
 }
 _CONTAINER_METHODS = set().union(*_CONTAINER_METHODS_OF.values())
+
+
+def _container_kind(v):
+    for t in (str, dict, list, set, frozenset, tuple):
+        if isinstance(v, t):
+            return t.__name__
+    raise KeyError(type(v).__name__)
 _BITOPS = {ast.BitXor: _operator.xor, ast.BitAnd: _operator.and_, ast.BitOr: _operator.or_}
 
 
@@ -348,7 +355,7 @@ class MiniEval:
                 fn_ = base.methods[e.func.attr]
             elif (isinstance(base, (list, dict, set, frozenset, tuple)) or
                   (isinstance(base, str) and not isinstance(base, Sym))) and not kws_ and \
-                    e.func.attr in _CONTAINER_METHODS_OF['str' if isinstance(base, str) else type(base).__name__]:
+                    e.func.attr in _CONTAINER_METHODS_OF[_container_kind(base)]:
                 fn_ = getattr(base, e.func.attr)
             elif base is None:
                 raise _Fault('AttributeError')
@@ -441,7 +448,7 @@ class MiniEval:
                 base = _NOBASE
             if isinstance(base, (list, dict, set, frozenset, tuple)) or \
                     (isinstance(base, str) and not isinstance(base, Sym)):
-                if e.func.attr not in _CONTAINER_METHODS_OF[type(base).__name__ if not isinstance(base, str) else 'str']:
+                if e.func.attr not in _CONTAINER_METHODS_OF[_container_kind(base)]:
                     raise _Fault('AttributeError')
                 args_, _ = self._call_args(e)
                 if any(isinstance(a, (Sym, Term)) for a in args_) and isinstance(base, str):
